@@ -1,3 +1,3 @@
 From Verif Require Import Extract.C07.
 Require Import ExtrOcamlBasic.
-Extraction "c07_model.ml" c07_eval c07_err c07_project_res c07_normalize c07_project_value c07_nf_ok c07_nf_concrete c07_print c07_range_rewrite.
+Extraction "c07_model.ml" c07_eval c07_err c07_project_res c07_normalize c07_project_value c07_nf_ok c07_nf_concrete c07_print c07_range_rewrite c07_impl_def.
